@@ -85,17 +85,22 @@ Definition unpadded (h : hdr) (pay : list Z) : list Z :=
 Definition storable (rtx : bool) (h : hdr) (pay : list Z) : bool :=
   (slen pay <=? 1460) && (if rtx && old_style_pad h pay then last pay 0 <=? slen pay else true).
 
+(* RTX is negotiated: both the RTX SSRC and the RTX payload type are set *)
+Definition is_rtx (rtxssrc rtxpt : Z) : bool := negb (rtxssrc =? 0) && negb (rtxpt =? 0).
+
 (* (h', pay') is the retransmission form of the sent packet (h, pay) *)
 Definition is_resend_of (rtx : bool) (rtxssrc rtxpt : Z) (h : hdr) (pay : list Z) (h' : hdr) (pay' : list Z) : Prop :=
   if rtx then
-    h_ssrc h' = rtxssrc /\ h_pt h' = rtxpt /\ h_pad h' = false /\ h_padsize h' = 0 /\
+    h_ssrc h' = rtxssrc /\ h_pt h' = rtxpt /\ h_pad h' = false /\
+    h_padsize h' = (if h_pad h then 0 else h_padsize h) /\   (* meaningless without the flag: left alone *)
     h_marker h' = h_marker h /\ h_ts h' = h_ts h /\ h_csrc h' = h_csrc h /\
     pay' = [(h_seq h / 256) mod 256; h_seq h mod 256] ++ unpadded h pay
   else h' = h /\ pay' = pay.
 
 Definition is_resend_ofb (rtx : bool) (rtxssrc rtxpt : Z) (h : hdr) (pay : list Z) (h' : hdr) (pay' : list Z) : bool :=
   if rtx then
-    (h_ssrc h' =? rtxssrc) && (h_pt h' =? rtxpt) && negb (h_pad h') && (h_padsize h' =? 0) &&
+    (h_ssrc h' =? rtxssrc) && (h_pt h' =? rtxpt) && negb (h_pad h') &&
+    (h_padsize h' =? (if h_pad h then 0 else h_padsize h)) &&
     Bool.eqb (h_marker h') (h_marker h) && (h_ts h' =? h_ts h) && list_eqb Z.eqb (h_csrc h') (h_csrc h) &&
     list_eqb Z.eqb pay' ([(h_seq h / 256) mod 256; h_seq h mod 256] ++ unpadded h pay)
   else hdr_eqb h' h && list_eqb Z.eqb pay' pay.
